@@ -191,6 +191,85 @@ def check_height(ctx, R="C03.height"):
         ctx.finding(R, fn, "PointInRegionDistribution.sampleGiven", "PointInRegionDistribution.sampleGiven is not value[self.region].uniformPointInner()")
 
 
+def check_rays(ctx, R="C03.rays"):
+    ctx.rule(
+        R,
+        "sibling ray queries agree: inside one function every `<mesh>.ray.intersects_location(...)` call is made with the same options "
+        "(e.g. multiple_hits); the branches of MeshVolumeRegion.intersect that clip a path / polyline against the volume split each "
+        "segment at ALL its boundary crossings, so a branch asking only for the first hit returns pieces lying outside the volume",
+    )
+    model = ctx.model
+    n = 0
+    for mn in (RG, "scenic.core.visibility"):
+        m = model.module(mn)
+        for q, fn in m.functions.items():
+            sites = [c for c in walk_local(fn) if isinstance(c, ast.Call) and isinstance(c.func, ast.Attribute) and c.func.attr == "intersects_location"]
+            if len(sites) < 2:
+                continue
+            n += 1
+            opts = [tuple(sorted((k.arg, unparse(k.value)) for k in c.keywords if k.arg not in ("ray_origins", "ray_directions", None))) for c in sites]
+            major = max(sorted(set(opts)), key=opts.count)
+            odd = [(c, o) for c, o in zip(sites, opts) if o != major]
+            if not odd:
+                ctx.ok(R, fn, f"{q}: {len(sites)} ray queries, all with options {dict(major) or 'default (all hits)'}")
+            elif opts.count(major) * 2 <= len(opts):
+                ctx.finding(R, fn, f"{q}: ray queries disagree", f"{q}: its {len(sites)} ray queries are made with different options {sorted({str(dict(o)) for o in opts})}: the branches disagree on which boundary crossings they see (all hits vs. first hit only)")
+                continue
+            for c, o in odd:
+                ctx.finding(R, c, f"{q}: ray query options {dict(o)}", f"{q}: `{norm_text(c, 90)}` is made with options {dict(o)} while the sibling queries of the same function use {dict(major) or 'the defaults (all hits)'}: the branches disagree on which crossings they see")
+    ctx.floor(R, n, 2, "functions with several ray queries")
+
+
+def check_cache(ctx, R="C03.cache"):
+    ctx.rule(
+        R,
+        "cached over-approximation: PolygonalFootprintRegion.approxBoundFootprint may hand back the cached prism only when the cached z-interval "
+        "[pc - ph/2, pc + ph/2] CONTAINS the requested one [c - h/2, c + h/2] (both inequalities, compared as linear forms); the cache entry "
+        "stores exactly the centre and height the cached prism was built with",
+    )
+    from ..linform import add, equal, lin, lin_src, scale
+    from fractions import Fraction
+
+    model = ctx.model
+    fn = model.func(RG, "PolygonalFootprintRegion.approxBoundFootprint")
+    c_, h_ = fn.args.args[1].arg, fn.args.args[2].arg
+    unp = [n for n in walk_local(fn) if isinstance(n, ast.Assign) and isinstance(n.targets[0], ast.Tuple) and len(n.targets[0].elts) == 3 and unparse(n.value) == "self._bounded_cache"]
+    if len(unp) != 1 or not all(isinstance(e, ast.Name) for e in unp[0].targets[0].elts):
+        raise AnalysisError("shape not recognised: unpacking of self._bounded_cache")
+    pc, ph, preg = (e.id for e in unp[0].targets[0].elts)
+    rets = [r for r in lib.returns_of(fn) if r.value is not None and unparse(r.value) == preg]
+    if not rets:
+        raise AnalysisError("shape not recognised: approxBoundFootprint never returns the cached region")
+    need = {
+        "upper": lin_src(f"({pc} + {ph} / 2) - ({c_} + {h_} / 2)"),
+        "lower": lin_src(f"({c_} - {h_} / 2) - ({pc} - {ph} / 2)"),
+    }
+    for r in rets:
+        have = []
+        for t, pol in lib.guard_tests(r, fn):
+            conj = t.values if isinstance(t, ast.BoolOp) and isinstance(t.op, ast.And) and pol else [t]
+            for cpt in conj:
+                if isinstance(cpt, ast.Compare) and len(cpt.ops) == 1 and isinstance(cpt.ops[0], (ast.Lt, ast.LtE, ast.Gt, ast.GtE)) and pol:
+                    big, small = (cpt.comparators[0], cpt.left) if isinstance(cpt.ops[0], (ast.Lt, ast.LtE)) else (cpt.left, cpt.comparators[0])
+                    have.append(add(lin(big), scale(lin(small), Fraction(-1))))
+        miss = [k for k, f in need.items() if not any(equal(f, g) for g in have)]
+        if miss:
+            ctx.finding(R, r, f"cache reuse without {'/'.join(miss)} containment", f"approxBoundFootprint returns the cached prism without checking that its {' and '.join(miss)} z-bound covers the requested one: a prism that only overlaps the request is too short, so part of the region is cut off")
+        else:
+            ctx.ok(R, r, "the cached prism is reused only when its z-interval contains the requested interval")
+    # what is stored is what was built
+    st = [n for n in walk_local(fn) if isinstance(n, ast.Assign) and unparse(n.targets[0]) == "self._bounded_cache" and isinstance(n.value, ast.Tuple) and len(n.value.elts) == 3]
+    ok = False
+    for n in st:
+        built = lib.role_text(fn, n.value.elts[2])
+        want = f"self.boundFootprint({lib.role_text(fn, n.value.elts[0])}, {lib.role_text(fn, n.value.elts[1])})"
+        ok = ok or built == want
+    if st and ok:
+        ctx.ok(R, st[0], "the cache entry records the centre and height its prism was built with")
+    else:
+        ctx.finding(R, fn, "cache entry mismatch", "approxBoundFootprint stores a (centre, height) that is not the one its cached prism was built with")
+
+
 def sampler_scope(mname, subname):
     return mname in ("genericSampler", "uniformPointInner") or subname == "sampler"
 
@@ -200,5 +279,7 @@ def check(ctx):
     ctx.floor("C03.weights", n, 4, "weighted random.choices sites in regions.py")
     check_membership(ctx)
     check_height(ctx)
+    check_rays(ctx)
+    check_cache(ctx)
     n = rk.check_operand_interface(ctx, "C03.operand", scope=sampler_scope)
     ctx.floor("C03.operand", n, 3, "operand attribute reads in sampler code")
